@@ -184,9 +184,9 @@ def check_pipe(case, obs, tol=None, invalid_is_nothing=True):
 # ---- C06 ---------------------------------------------------------------
 @ref("broadcast_to")
 def _(x, a):
-    if any(e <= 0 for e in a["shape"]):
+    if any(e < 0 for e in a["shape"]):
         raise Invalid("non-positive extent")
-    return _np(np.broadcast_to, x[0], tuple(a["shape"]))
+    return _np(np.broadcast_to, x[0], tuple(a["shape"]))   # a zero extent gives a zero-size result: outside the domain (run_pipe)
 
 
 REFS["broadcast_to_i"] = REFS["broadcast_to"]
@@ -226,11 +226,24 @@ def _(x, a):
 @ref("repeat")
 def _(x, a):
     _pos(a["repeats"], "repeats")
+    if isinstance(a["repeats"], list) and a["axis"] is not None and -x[0].ndim <= a["axis"] < x[0].ndim \
+            and len(a["repeats"]) == 1 and x[0].shape[a["axis"]] != 1:
+        # NumPy broadcasts a length-1 repeats list; the library documents len(repeats) == shape[axis]
+        raise OutOfDomain("length-1 repeats list")
     return _np(np.repeat, x[0], a["repeats"], a["axis"])
 
 
 @ref("roll")
 def _(x, a):
+    if isinstance(a["axis"], list):
+        nd = x[0].ndim
+        norm = [v % nd for v in a["axis"] if -nd <= v < nd]
+        if len(norm) == len(a["axis"]) and len(set(norm)) != len(norm):
+            # NumPy applies the shifts of a repeated axis cumulatively; the library documents no such rule
+            raise OutOfDomain("repeated axis in roll")
+        if isinstance(a["shift"], list) and len(a["shift"]) != len(a["axis"]):
+            # NumPy broadcasts shift against axis; index::normalize_roll_length documents "same length"
+            raise OutOfDomain("shift/axis length mismatch")
     return _np(np.roll, x[0], a["shift"] if isinstance(a["shift"], int) else tuple(a["shift"]), _axis(a["axis"]))
 
 
@@ -240,8 +253,12 @@ def _(x, a):
     v = x[0]
     pw = a["pad_width"]
     d = v.ndim
-    if len(pw) != 2 * d or any(p < 0 for p in pw):
-        raise Invalid("pad width")
+    if len(pw) != 2 * d:
+        raise Invalid("pad width count")
+    if any(p < 0 for p in pw):
+        # ONNX Pad (whose width format the docstring adopts) allows negative widths (cropping); NumPy rejects them:
+        # no agreed reference, outside the judged domain
+        raise OutOfDomain("negative pad width")
     return np.pad(v, [(pw[i], pw[d + i]) for i in range(d)], constant_values=a["value"])
 
 
